@@ -114,6 +114,8 @@ func (f *vfFb) written() uint32 {
 		return 1
 	case 15, 16:
 		return 2
+	case 32:
+		return 4 // a 32 bpp pixel is four bytes: a colour mask may place a channel in the fourth
 	}
 	return 3
 }
@@ -142,8 +144,9 @@ func (f *vfFb) classify(i int) (pix bool, cx, cy, rx, ry, comp uint32) {
 }
 
 //verif:split 5
-func Verif_C19_fb_write() {
-	f := vfNewFb(2)
+func Verif_C19_fb_write() { vfFbWriteOn(vfNewFb(2)) }
+
+func vfFbWriteOn(f *vfFb) {
 	ch, fg, bg := zzverif.U8("ch")&3, vfColour("fg"), vfColour("bg")
 	x, y := zzverif.U32("x"), zzverif.U32("y")
 	// case split: coordinates inside the grid are enumerated (so that pixel addresses are concrete on each
@@ -338,9 +341,8 @@ func Verif_C19_fb_palette() {
 func Verif_C19_fb_pack32() {
 	f := vfNewFbDepth(32, &multiboot.FramebufferRGBColorInfo{RedPosition: 24, RedMaskSize: 8, GreenPosition: 16, GreenMaskSize: 8, BluePosition: 8, BlueMaskSize: 8})
 	bg := vfColour("bg")
-	// KF-C19-5: packColor24 returns three bytes and the 24/32 bpp paths store three: a channel at bit 24 or above
-	// is never written.
-	zzverif.Known("KF-C19-5", true)
+	// KF-C19-5 (fixed): packColor24 yields three bytes and the 24/32 bpp paths used to store three, so a channel at
+	// bit 24 or above was never written.
 	panicked := zzverif.Catch(func() { f.cons.Fill(1, 1, 1, 1, 0, bg) })
 	zzverif.Assert(!panicked, "Fill never touches memory outside the framebuffer")
 	if panicked {
